@@ -93,6 +93,13 @@ def harness(args, timeout=3600, binpath=None, env=None):
                 pass
     if rc == 124:
         raise ToolError("harness timed out: " + " ".join(map(str, args)))
+    if rc < 0 or rc in (132, 134, 135, 136, 139):
+        # killed by a signal (SIGSEGV, SIGILL, SIGBUS, SIGFPE, SIGABRT): the harness is safe Rust and catches panics, so
+        # the crash happened inside the library (undefined behaviour in an unsafe block, an abort): that is data, not a
+        # tool failure
+        sig = -rc if rc < 0 else rc - 128
+        text = "command: %s %s\nkilled by signal %d\nlast output:\n%s\n" % (binpath or BIN, " ".join(map(str, args)), sig, out[-3000:])
+        raise Violation("the library crashed the process (signal %d) while the harness ran: %s" % (sig, " ".join(map(str, args))[:300]), text)
     if rc not in (0, 1):
         raise ToolError("harness failed rc=%d: %s\n%s" % (rc, " ".join(map(str, args)), out[-3000:]))
     return rc, info, out
